@@ -76,7 +76,13 @@ structure EncSt where
   sent : Nat          -- nb_pkt_sent
 deriving Repr
 
-def totalSrc (ks : Array Nat) : Nat := ks.foldl (· + ·) 0
+/-- number of source symbols of the blocks `0 .. n-1` -/
+def prefixSrc (ks : Array Nat) : Nat → Nat
+  | 0 => 0
+  | n+1 => prefixSrc ks n + ks.getD n 0
+
+/-- number of source symbols of the object -/
+def totalSrc (ks : Array Nat) : Nat := prefixSrc ks ks.size
 
 /-- `read_window`: `while !read_end && blocks.len() < window { read_block() }` -/
 def readWindow (e : Enc) : Nat → EncSt → EncSt
@@ -98,9 +104,6 @@ def readWindow (e : Enc) : Nat → EncSt → EncSt
         { st with win := st.win ++ [blk], next := st.next + 1,
                   readEnd := st.next + 1 == e.ks.size }
 
-def setRest (win : List WBlk) (i : Nat) (r : List Nat) : List WBlk :=
-  win.mapIdx (fun j b => if j = i then { b with rest := r } else b)
-
 /-- the emission loop of one transfer; `fuel` bounds the iterations (each iteration emits a
     symbol or removes a drained block).  Out of fuel = `none` (never happens, see `emitFuel`). -/
 def emitLoop (e : Enc) (tot : Nat) : Nat → EncSt → Option (List Sym)
@@ -121,7 +124,7 @@ def emitLoop (e : Enc) (tot : Nat) : Nat → EncSt → Option (List Sym)
         | [] => emitLoop e tot fuel { st with win := st.win.eraseIdx idx, idx := idx }
         | esi :: rest =>
           let srcSent := if esi < blk.k then st.srcSent + 1 else st.srcSent
-          let win' := setRest st.win idx rest
+          let win' := st.win.set idx { blk with rest := rest }
           -- last packet of the transfer (after the D3 repair, /repo 76ef81b): every source symbol
           -- sent, this block drained and no block of the window still holds a symbol
           let isLastPacket := decide (srcSent ≥ tot) && rest.isEmpty && win'.all (·.rest.isEmpty)
